@@ -38,7 +38,8 @@ Owner(a) == CASE a \in {"a1", "a2"} -> 1
 Local(h, a) == a = "lo" \/ (Owner(a) = h /\ h \in Hosts)
 
 \* host that owns the destination of a packet sent by `from` to address a
-\* (0 = nobody: unknown destination)
+\* (0 = nobody: unknown destination - a foreign address no host has, e.g. "x", or the
+\* unspecified address "wild" used as a destination)
 Target(from, a) == IF a = "lo" THEN from
                    ELSE IF Owner(a) \in Hosts THEN Owner(a) ELSE 0
 
